@@ -879,6 +879,8 @@ def oracle_phase(chk, case, before, states, snaps):
             sig0["created_under"] = "target-name" if resolve_text(after, path) else "other-name"
         if before[kind] and not before[kind].endswith("\n"):
             sig0["no_trailing_newline"] = True
+        if const_collision(before[kind], path):
+            sig0["const_collision"] = True
         if outcome == "glued-append":
             fail(dict(sig0, clause="valid-python" if not is_python(after) else "frame"),
                  "%s had no trailing newline; the emission was appended onto its last line" % FNAME[kind])
@@ -917,10 +919,17 @@ def oracle_phase(chk, case, before, states, snaps):
         # (d) second (and third) run byte-identical
         for i in range(1, len(snaps)):
             if snaps[i]["rc"] != 0:
-                fail(dict(sig0, clause="crash", exc=snaps[i]["exc"], run=i + 1), "run %d exits %s" % (i + 1, snaps[i]["rc"]))
-                break
+                break  # reported once per case, below
             if snaps[i]["files"][kind] != snaps[i - 1]["files"][kind]:
                 fail(dict(sig0, clause="second-run", run=i + 1), "%s differs between run %d and run %d" % (FNAME[kind], i, i + 1))
+                break
+    if first["rc"] == 0 and not invalid and not glued:
+        for i in range(1, len(snaps)):
+            if snaps[i]["rc"] != 0:
+                coll = collisions(case, before) or collisions(case, snaps[i]["before"])
+                fail({"clause": "crash", "exc": snaps[i]["exc"], "run": i + 1, "const_collision": coll[0] if coll else False,
+                      "states": "/".join(states[k] for k in KINDS) if not coll else "*"},
+                     "run %d exits %s: %s" % (i + 1, snaps[i]["rc"], snaps[i]["stderr"].strip().splitlines()[-1] if snaps[i]["stderr"].strip() else ""))
                 break
     return fails
 
